@@ -435,6 +435,34 @@ def eval_op(idx, cut, stats, reparse=False):
             if key is not None:
                 memo[key] = 'same'
             outcome.append('same')
+    # editions that the complete listing has and the cut removed: asking for
+    # them (a script that knows which batch the job writes) is a parser
+    # error, not a KeyError / IndexError
+    if ref['scan'] == 'ok':
+        gone = [b for b in ref['batches'] if b not in batches][:2]
+        asks = [('parse_from_number', b) for b in gone]
+        if gone:
+            asks.append(('parse_from_index', len(batches)))
+        for meth, arg in asks:
+            stats['asked-for-an-edition-that-is-gone'] = stats.get(
+                'asked-for-an-edition-that-is-gone', 0) + 1
+            try:
+                getattr(parser, meth)(arg)
+            except parse.ParserException:
+                continue
+            except Watchdog:
+                raise
+            except Exception as exc:  # noqa
+                viol.append(('raised', 'parse-raised:%s@%s' % (
+                    type(exc).__name__, meth),
+                    dict(detail, asked=[meth, arg],
+                         editions_found=list(batches),
+                         exception=repr(exc)[:160])))
+                break
+            else:
+                viol.append(('differs', 'edition-that-is-gone-parsed',
+                             dict(detail, asked=[meth, arg])))
+                break
     return viol, '/'.join(outcome) or 'no-editions'
 
 
